@@ -1,6 +1,7 @@
 (* Evaluation lemmas for the refinement of the GENERATED profiler (Gen/ProfilerGen.v):
    float(n) is not 0.0 for 0 < n < 2^53 (axiom-free, on SpecFloat directly), the percentage expression,
-   _format_statistic, sum(pd.isnull(S)), the validation loop, the output frame; and the rendering of the
+   _format_statistic, sum(pd.isnull(S)), len(S.dropna().unique()) and the `+= 1` for the missing value,
+   the validation loop, the output frame; and the rendering of the
    model's rows (Model/Profiler.v) as the value the generated function returns.
    Lists / Z / SpecFloat computation only: axiom-free.                                          *)
 From Coq Require Import ZArith Bool List String SpecFloat Lia.
@@ -104,6 +105,18 @@ Qed.
 Lemma isnull_sum_eval cells :
   py_sum (series_isnull (PList cells)) = PInt (Z.of_nat (List.length (filter cell_missing cells))).
 Proof. unfold py_sum. cbn [series_isnull py_iter]. rewrite sum_bools. reflexivity. Qed.
+
+Lemma nunique_present_eval cells :
+  series_nunique_present (PList cells) = PInt (Z.of_nat (nunique_present cells)).
+Proof. reflexivity. Qed.
+
+(* if missing_values > 0: unique_values += 1     (the state of the `if`: exception flag, unique_values) *)
+Lemma count_missing_once_eval (b : bool) (u0 : Z) :
+  (if py_truth (PBool b)
+   then bindx (py_add (PInt u0) (PInt 1)) (fun x_ => (x_, PInt u0)) (fun v_ => (PNone, v_))
+   else (PNone, PInt u0))
+  = (PNone, PInt (u0 + (if b then 1 else 0))).
+Proof. destruct b; cbn [py_truth]; [reflexivity | now rewrite Z.add_0_r]. Qed.
 
 (* the comment strings selected by the two `if`s *)
 Lemma comment_eval sf n u m :
